@@ -65,8 +65,26 @@ class C03(Prop):
                     s = pick_edge()
                     e = s + rng.choice([0, MS, 100 * MS, rng.randint(0, 3000 * MS)])
                 reads.append([rng.choice([-1, -1, 0, 1, 2, 3, 100]), s, e, rng.choice([0, 0, 60, -300, 345, 840, -720])])
+            # some buckets are rewritten before they are read: replace moves events in time
+            repl = []
+            if rng.random() < 0.4:
+                for _ in range(rng.randint(1, 3)):
+                    repl.append([rng.randrange(n), [None, T0 + rng.randrange(0, 20) * 100 * MS, rng.choice([0, 100 * MS, 1000 * MS]), rng.choice([LA, LB])]])
             for be in storelib.BACKENDS:
-                out.append(("random-window", {"backend": be, "events": evs, "reads": reads}))
+                out.append(("random-window", {"backend": be, "events": evs, "reads": reads, "replace": repl}))
+        # buckets and windows at the very start of the time range (the epoch itself is instant 0)
+        for _ in range(ctx.pick(40, 600)):
+            evs = [[None, rng.choice([0, 0, MS, 100 * MS, 1000 * MS]), rng.choice([0, 0, 1, MS, 500 * MS]), rng.choice([LA, LB])]
+                   for _ in range(rng.randint(1, 4))]
+            reads = []
+            for _ in range(5):
+                s0 = rng.choice([None, -2000 * MS, -MS, -1, 0, 1, MS])
+                e0 = rng.choice([None, -500, -1, 0, 1, 999, MS, 2000 * MS])
+                if s0 is not None and e0 is not None and e0 < s0:
+                    s0, e0 = e0, s0
+                reads.append([rng.choice([-1, 1, 2]), s0, e0, rng.choice([0, 60, -300])])
+            for be in storelib.BACKENDS:
+                out.append(("epoch-window", {"backend": be, "events": evs, "reads": reads, "replace": []}))
         return out
 
     def impl(self, case):
@@ -76,6 +94,9 @@ class C03(Prop):
             ds.create_bucket("w", "t", "c", "h", created=us_to_dt(T0))
             b = ds["w"]
             b.insert([mk_event(e) for e in case["events"]])
+            ids = sorted(x[0] for x in storelib.dump(store)["w"]["events"])
+            for idx, ev in case.get("replace", []):
+                b.replace(ids[idx], mk_event(ev))
             stored = storelib.dump(store)["w"]["events"]
             outs = []
             for lim, s, e, off in case["reads"]:
@@ -92,18 +113,24 @@ class C03(Prop):
         pre = f"store {case['backend']} "
         m = {"type": "t", "client": "c", "hostname": "h", "created_us": T0}
         L = ["store reset", pre + f"create {hx('w')} {storelib.p_meta(m)}",
-             pre + f"bulk {hx('w')} {p_list(case['events'], p_ev)}", pre + "dump"]
+             pre + f"bulk {hx('w')} {p_list(case['events'], p_ev)}"]
+        first = {"memory": 0, "sqlite": 1, "peewee": 1}[case["backend"]]
+        for idx, ev in case.get("replace", []):
+            L.append(pre + f"replace {hx('w')} {first + idx} {p_ev(ev)}")
+        L.append(pre + "dump")
+        self._nrep = len(case.get("replace", []))
         for lim, s, e, off in case["reads"]:
             L.append(pre + f"get {hx('w')} {lim} {p_opt(s)} {p_opt(e)}")
             L.append(pre + f"count {hx('w')} {p_opt(s)} {p_opt(e)}")
         return L
 
     def model_out(self, case, answers):
-        stored = storelib.parse_dump(answers[3])["w"]["events"]
+        k = 3 + len(case.get("replace", []))
+        stored = storelib.parse_dump(answers[k])["w"]["events"]
         outs = []
         for i in range(len(case["reads"])):
-            t = answer(answers[4 + 2 * i])
-            c = answer(answers[5 + 2 * i])
+            t = answer(answers[k + 1 + 2 * i])
+            c = answer(answers[k + 2 + 2 * i])
             outs.append({"get": t.list(t.ev), "count": c.int()})
         return {"stored": stored, "reads": outs}
 
@@ -135,8 +162,11 @@ class C03(Prop):
         stored = out["stored"]
         byid = {x[0]: x for x in stored}
         be = case["backend"]
-        if sorted(x[1:] for x in stored) != sorted(e[1:] for e in case["events"]):
-            return "stored events differ from the inserted ones"
+        expect = [list(e[1:]) for e in case["events"]]
+        for idx, ev in case.get("replace", []):
+            expect[idx] = list(ev[1:])
+        if [x[1:] for x in sorted(stored, key=lambda x: x[0])] != expect:
+            return "stored events differ from the inserted (and replaced) ones"
         for (lim, s, e, off), r in zip(case["reads"], out["reads"]):
             where = f"read limit={lim} start={s} end={e}"
             got = r["get"]
